@@ -82,7 +82,7 @@ def copy_worktree(dst):
         raise MachineryError("rsync failed: %s" % p.stderr.decode()[-500:])
 
 
-def build(variant="prod", tag="b", extra_conf=None, make_targets=None, with_tests=False):
+def build(variant="prod", tag="b", extra_conf=None, make_targets=None, with_tests=False, cwd_etc=False):
     """Return dict(root=, lib=, snoopyctl=, etc=, ini=) of a fresh scratch build of REPO's working tree."""
     t0 = time.time()
     conf, cflags, cc = VARIANTS[variant]
@@ -91,6 +91,9 @@ def build(variant="prod", tag="b", extra_conf=None, make_targets=None, with_test
     copy_worktree(src)
     etc = os.path.join(root, "etc")
     os.makedirs(etc)
+    # cwd_etc: the compile-time config path becomes /proc/self/cwd/etc/snoopy.ini, i.e. relative to the working
+    # directory of whichever process loads the library -- parallel replay workers then each have a private snoopy.ini
+    conf_etc = "/proc/self/cwd/etc" if cwd_etc else etc
     env = dict(os.environ)
     env.pop("MAKEFLAGS", None)
     logf = os.path.join(root, "build.log")
@@ -101,7 +104,7 @@ def build(variant="prod", tag="b", extra_conf=None, make_targets=None, with_test
                 tail = open(logf, errors="replace").read()[-3000:]
                 raise MachineryError("build step %s failed (variant %s):\n%s" % (cmd[0:2], variant, tail))
         run(["./bootstrap.sh"])
-        cmd = ["./configure", "--sysconfdir=" + etc, "--libdir=" + os.path.join(root, "instlib")] + conf + (extra_conf or [])
+        cmd = ["./configure", "--sysconfdir=" + conf_etc, "--libdir=" + os.path.join(root, "instlib")] + conf + (extra_conf or [])
         cmd.append("CFLAGS=" + cflags)
         if cc:
             cmd.append("CC=" + cc)
@@ -117,15 +120,14 @@ def build(variant="prod", tag="b", extra_conf=None, make_targets=None, with_test
         raise MachineryError("libsnoopy.so missing after build")
     log("[build] %s variant in %.1fs at %s" % (variant, time.time() - t0, root))
     return dict(root=root, src=src, lib=lib, etc=etc, ini=os.path.join(etc, "snoopy.ini"),
-                snoopyctl=os.path.join(src, "src/cli/snoopyctl"), variant=variant)
+                snoopyctl=os.path.join(src, "src/cli/snoopyctl"), variant=variant, cwd_etc=cwd_etc)
 
 
 def ensure_tools():
     """/verif's own tools must have been built by setup_cmd; build them if missing."""
-    if not os.path.exists(os.path.join(BUILD, ".stamp")):
-        r = subprocess.run(["make", "-s", "-C", os.path.join(VERIF, "harness")], capture_output=True, text=True)
-        if r.returncode != 0:
-            raise MachineryError("harness build failed: " + r.stdout[-2000:] + r.stderr[-2000:])
+    r = subprocess.run(["make", "-s", "-C", os.path.join(VERIF, "harness")], capture_output=True, text=True)
+    if r.returncode != 0:
+        raise MachineryError("harness build failed: " + r.stdout[-2000:] + r.stderr[-2000:])
 
 
 # --------------------------------------------------------------------------------------------
